@@ -7,7 +7,7 @@ res = {}
 for f in sorted(glob.glob(os.path.join(ROOT, 'lab', 'mut-results-*.tsv')), key=lambda x: int(re.search(r'(\d+)\.tsv', x).group(1))):
     for l in open(f):
         p = l.rstrip('\n').split('\t')
-        if len(p) >= 3 and p[0] != 'DONE':
+        if len(p) >= 3 and re.fullmatch(r'C\d\d-\d+', p[0]) and re.fullmatch(r'C\d\d', p[1]):
             res.setdefault(p[0], {})[p[1]] = p[2]
 strength = json.load(open(os.path.join(ROOT, 'strengthened.json')))
 rows = []
@@ -21,7 +21,7 @@ for m in sorted(res, key=lambda x: (x.split('-')[0], int(x.split('-')[1]))):
     missed = sorted(c for c, v in res[m].items() if v != 'CAUGHT')
     rows.append((m, summ, caught, missed, strength.get(m, '')))
 out = ['# Seeded property-breaking changes and the checks that catch them', '',
-       'Each change was written by a fresh sub-agent that saw only the property text (round 2: plus one-line summaries of the earlier changes for that property, to force different mechanisms) and a scratch worktree; it compiles, passes the pinned 638-test baseline and needs a specific input to manifest (`meta.json`, `demo.sh`). Confirmed by `tools/confirm_mutant.sh`; run against the checks by `tools/mutant_lab.sh` (scratch copy of /verif + scratch worktree; raw results in `seeded/lab/`) and `tools/try_mutant.sh` (`git -C /repo apply`, `./check`, `git -C /repo checkout -- .`). Verdicts are those of the quick tier on the last run after strengthening.', '',
+       'Each change was written by a fresh sub-agent that saw only the property text (from round 2 on: plus one-line summaries of the earlier changes for that property, to force different mechanisms; six rounds) and a scratch worktree; it compiles, passes the pinned 638-test baseline and needs a specific input to manifest (`meta.json`, `demo.sh`). Confirmed by `tools/confirm_mutant.sh`; run against the checks by `tools/mutant_lab.sh` (scratch copy of /verif + scratch worktree; raw results in `seeded/lab/`) and `tools/try_mutant.sh` (`git -C /repo apply`, `./check`, `git -C /repo checkout -- .`). Verdicts are those of the quick tier on the last run after strengthening.', '',
        '| change | what it breaks | caught by (quick) | other checks tried, silent | check strengthened after a first miss |', '|---|---|---|---|---|']
 for m, summ, c, ms, st in rows:
     out.append('| %s | %s | %s | %s | %s |' % (m, summ.replace('|', '\\|'), ', '.join(c), ', '.join(ms) or '-', st or '-'))
